@@ -212,6 +212,13 @@ func c04show(target *onet.TreeNode, ds []fix.Delivery) string {
 }
 
 func c04exec(c *h.Ctx, cs *h.Case) {
+	for _, op := range cs.Ops {
+		if strings.HasPrefix(op, "c04 inst ") {
+			// several instances, registration scripts, channels read on demand: c04multi.go
+			c04multiExec(c, cs)
+			return
+		}
+	}
 	f := c04get()
 	var ct c04tree
 	var rec *fix.Rec
@@ -440,6 +447,7 @@ func c04gen(c *h.Ctx, yield func(*h.Case)) {
 			}
 		})
 	}
+	c04multiGen(c, yield)
 }
 
 func init() {
